@@ -196,21 +196,41 @@ static struct mtbl_iter *open_iter(struct mtbl_reader *r)
 	vn_bytes(Q, QL);
 	vn_bytes(Q2, QL2);
 #endif
+	struct mtbl_iter *it;
+	fe_in_create = 1;
+#ifdef NULLCASE
+	/* the other half: queries beyond the last index key.  The constructor must return NULL
+	 * (or an iterator that yields nothing) */
+	fe_cut_null_create = 0;
+	V_ASSUME(v_cmp(Q, QL, R_sep[NB - 1], R_sepl[NB - 1]) > 0);
+#else
+	/* main case: query at or before the last index key (the rest: NULLCASE queries) */
+	if (KIND != 0) {
+		fe_cut_null_create = 1;
+		V_ASSUME(v_cmp(Q, QL, R_sep[NB - 1], R_sepl[NB - 1]) <= 0);
+	}
+#endif
 	switch (KIND) {
 	case 1:
 		o_seek(Q, QL);
-		return mtbl_source_get(s, Q, QL);
+		it = mtbl_source_get(s, Q, QL);
+		break;
 	case 2:
 		o_seek(Q, QL);
-		return mtbl_source_get_prefix(s, Q, QL);
+		it = mtbl_source_get_prefix(s, Q, QL);
+		break;
 	case 3:
 		o_seek(Q, QL);
-		return mtbl_source_get_range(s, Q, QL, Q2, QL2);
+		it = mtbl_source_get_range(s, Q, QL, Q2, QL2);
+		break;
 	default:
 		o_cur = 0;
 		o_failed = 0;
-		return mtbl_source_iter(s);
+		it = mtbl_source_iter(s);
+		break;
 	}
+	fe_in_create = 0;
+	return it;
 }
 
 /* history of next / seek calls given by OPS */
